@@ -27,6 +27,9 @@ CHECKS = {
     "C05": ("reference-model monitor with explicit lexical scoping; exhaustive name assignments on binder templates; bound-name leak invariant on every built term",
             "Binder templates are instantiated with every assignment of their name slots to a pool of three equal-sized names (so binders, free variables and substituted values coincide adversarially), plus random binder-heavy programs over that pool; every exact route must keep bound names out of the inputs and agree with the capture-free reference at every point. Exploration.",
             "trusted: fv/refsem.py lexical scoping; reserved '__BOUND' names are never generated", "DESIGN.md §6 C05"),
+    "C07": ("shadow identity model over construct/drop/gc/pickle/reinterpret/re-allocate histories; weakref liveness; intern-table size invariant at quiescent points",
+            "Histories over term, domain, op and type recipes (including near-miss recipes that differ in one constructor argument and recipes sharing backing arrays) are executed exhaustively to a small length and randomly to length 300; after every action the identity relation among live handles must equal the model's, dropped terms must die, and the intern tables must return to their baseline size. Exploration.",
+            "trusted: the structural keys of the recipes; CPython refcounting + gc.collect()", "DESIGN.md §6 C07"),
     "C08": ("reference-model monitor over four rewriting routes (naive eager, normalize, unfold, apply_optimizer) + identity check of normal forms + brute-force einsum oracle",
             "Sum-product programs are generated inside the carrier of each of the seven semirings, with operands that do or do not mention each reduced variable and optional free real parameters; every route that completes must equal the reference value on the whole input space; normalising twice must return the identical object; enumerated einsum equations are compared with brute force for the three numpy backends. Exploration.",
             "trusted: fv/refsem.py; carrier-restricted generators", "DESIGN.md §6 C08"),
